@@ -14,8 +14,8 @@ import vlib
 
 META = {
     "category": "proof",
-    "text": "Coq theorems (Table/Props_C10.v, 15 theorems, all closed under the global context) over an executable model of sst/src/block.rs, sst/src/sbbf.rs and the SST layer of sst/src/lib.rs, for all entry sequences, all restart intervals (0 included) / target block sizes / bloom sizes and all finite cursor programs: BlockCursor and SstCursor refine the reference cursor (seek/next/prev through restart points, the reverse cache and block hopping), Block::load and Sst::load return the newest version not newer than the timestamp or its tombstone (bloom filter without false negatives for any hash), Sst::metadata is exact, divide_keys stays in [lhs, rhs) without tripping an assert, builders accept exactly the in-order, in-size input and reject the rest from checks that precede every mutation, the multi-builder's tables concatenate to the accepted input; the model is tied to the code by 3-way differential runs (Rust vs extracted model vs the specification computed in Python), with byte-for-byte comparison of sealed blocks, of file sizes and of file counts.",
-    "note": "Trusted: Coq kernel; tools/constants.py; ExtrOcamlBasic extraction + ocaml/table driver; harness c10; record sizes / BlockMetadata codec / item hash enter the theorems as section variables with stated hypotheses (positive and bounded size, decode(encode)=id, short encoding), proved for the prototk instance on the u64 range; the step from `record at byte offset` to real bytes is by correspondence (block bytes compared byte for byte), not by a codec proof; CRC32C, SipHash and SHA3 are arbitrary functions; table-full (1 GiB) is covered by the theorems only. Models the repaired code: fix: 23addcc (empty block/SST), a9a83c0 (restart interval 0), de09506 (multi-builder sort order across cuts).",
+    "text": "Coq theorems (Table/Props_C10.v, 20 theorems, all closed under the global context) over an executable model of sst/src/block.rs, sst/src/sbbf.rs and the SST layer of sst/src/lib.rs, for all entry sequences, all restart intervals (0 included) / target block sizes / bloom sizes and all finite cursor programs: BlockCursor and SstCursor refine the reference cursor (seek/next/prev through restart points, the reverse cache and block hopping), Block::load and Sst::load return the newest version not newer than the timestamp or its tombstone (bloom filter without false negatives for any hash), Sst::metadata is exact, divide_keys stays in [lhs, rhs) without tripping an assert, builders accept exactly the in-order, in-size input and reject the rest from checks that precede every mutation, the multi-builder's tables concatenate to the accepted input; at the byte level (on top of the Wire area's prototk model, C15): the record / BlockMetadata / frame / final-block bytes of the model are the reference prototk encodings of the shapes declared in sst/src/lib.rs, of the sizes the builders compute with, and decode back; and the BYTES a BlockBuilder writes, parsed by Block::new + BlockCursor over raw bytes with prototk's decoder, give the reference cursor's observations and the reference lookup; the model is tied to the code by 3-way differential runs (Rust vs extracted model vs the specification computed in Python), with byte-for-byte comparison of sealed blocks, of file sizes and of file counts.",
+    "note": "Trusted: Coq kernel; tools/constants.py; ExtrOcamlBasic extraction + ocaml/table driver; harness c10; record sizes / BlockMetadata codec / item hash enter the theorems as section variables with stated hypotheses (positive and bounded size, decode(encode)=id, short encoding), proved for the prototk instance on the u64 range; the block layer is proved down to raw bytes (message shapes retyped from the derive attributes, which are literals; the sealed blocks' bytes are compared with the implementation's on every run); the SstCursor theorem is still stated over the frame list, with the frame / final-block codecs proved separately; CRC32C, SipHash and SHA3 are arbitrary functions; table-full (1 GiB) is covered by the theorems only. Models the repaired code: fix: 23addcc (empty block/SST), a9a83c0 (restart interval 0), de09506 (multi-builder sort order across cuts).",
 }
 
 PROPS = "theories/Table/Props_C10.v"
